@@ -94,6 +94,18 @@ def ref_config(h, spec, checks):
     ap = None
     if 'approx' in checks and h.sym_mode:
         ap = ([X[k, 0] >= 0 for k in range(dim)] + [X[k, 0] <= 1 for k in range(dim)], 1e-12)
+    if 'history' in checks:
+        # an earlier evaluation at a DIFFERENT point set of equal shape that shares a coordinate with X must not be remembered
+        Xprev = np.array(X, dtype=X.dtype)
+        Xprev[-1] = Xprev[-1] + 1
+        e.lbasis(Xprev, 0)
+        fresh = make_elem(spec)
+        for i in range(N):
+            a_, b_ = e.lbasis(X, i), fresh.lbasis(X, i)
+            h.equal('value[%d] after an earlier call == value on a fresh element' % i, np.asarray(a_[0]), np.asarray(b_[0]))
+            h.equal('derivative[%d] after an earlier call == on a fresh element' % i, np.asarray(a_[1]), np.asarray(b_[1]))
+            fresh = make_elem(spec)
+        e.lbasis(Xprev, 0)
     if 'deriv' in checks:
         for i in range(N):
             out = e.lbasis(X, i)
@@ -364,6 +376,33 @@ def global_dual_config(h, spec, mesh):
                         h.zero('%s of basis %d at vertex %d' % (nm, j, a), tosym(v) - tgt)
                     else:
                         h.zero('%s of basis %d at vertex %d' % (nm, j, a), float(v) - tgt, scale=1e3)
+        # point-value functionals away from the vertices (edge midpoints, cell centre, ...): basis j at the MAPPED reference
+        # location of local DOF i is delta_ij
+        D = np.asarray(getattr(e, 'doflocs', np.zeros((0, dim))), dtype=float)
+        dn = list(e.dofnames)
+        off_f, off_e, off_i = e.nodal_dofs, e.nodal_dofs + e.facet_dofs, e.nodal_dofs + e.facet_dofs + (e.edge_dofs if dim == 3 else 0)
+        lay = []
+        for a in range(e.refdom.nnodes):
+            lay += [dn[k] for k in range(e.nodal_dofs)]
+        if dim == 3:
+            for a in range(e.refdom.nedges):
+                lay += [dn[off_e + k] for k in range(e.edge_dofs)]
+        if dim >= 2:
+            for a in range(e.refdom.nfacets):
+                lay += [dn[off_f + k] for k in range(e.facet_dofs)]
+        lay += [dn[off_i + k] for k in range(e.interior_dofs)]
+        if D.shape[0] == N and len(lay) == N:
+            for i in range(e.refdom.nnodes * nd, N):
+                if lay[i] != 'u' or np.isnan(D[i]).any():
+                    continue
+                Xi = h.const(D[i].reshape(dim, 1))
+                for j in range(N):
+                    v = _pt(e.gbasis(mapping, Xi, j)[0].value)
+                    tgt = 1 if j == i else 0
+                    if h.sym_mode:
+                        h.zero('value of basis %d at the location of DOF %d' % (j, i), tosym(v) - tgt)
+                    else:
+                        h.zero('value of basis %d at the location of DOF %d' % (j, i), float(v) - tgt, scale=1e3)
 
 
 def build_configs(tier, seed):
@@ -397,6 +436,8 @@ def build_configs(tier, seed):
                 checks.append('flux')    # lowest-order H(div) / H(curl): one functional per facet / edge
             if base == 'ElementTriBDM1':
                 checks.append('approx')  # its Gauss-point constants involve sqrt(3): identities hold to rounding only
+            if base in ('ElementLinePp', 'ElementQuadP'):
+                checks.insert(0, 'history')
             if 'Skeleton' in base:
                 checks.remove('deriv')   # facet-supported elements deliver a zero gradient by design
             cfgs.append(dict(name='ref/%s' % spec, fn=ref_config, kw=dict(spec=spec, checks=checks), opts=dict(timeout=600)))
@@ -407,7 +448,7 @@ def build_configs(tier, seed):
         mesh = REF_MESH[rd]
         if fam == 'global':
             # V comes from an exact rational inverse on numeric geometry; X symbolic
-            heavy = base in ('ElementTriArgyris', 'ElementTri15ParamPlate', 'ElementQuadBFS', 'ElementHexC1', 'ElementQuad2G')
+            heavy = base in ('ElementTriArgyris', 'ElementTri15ParamPlate', 'ElementQuadBFS', 'ElementHexC1')
             if heavy and quick:
                 continue
             if base == 'ElementHexC1':
